@@ -399,13 +399,16 @@ func buildLinkEvent(graph *Graph, eventType, from, to string) (Event, error) {
 	})
 }
 
-func createTask(dir string, opts GlobalOptions, epicID string, isEpic bool, title, body string) (createOutput, error) {
+// createTask creates an item and, for tasks, applies the given set-style updates
+// (state, claim, result) in the same lock section and the same append, so that
+// create-with-state/claim is one atomic command.
+func createTask(dir string, opts GlobalOptions, epicID string, isEpic bool, title, body string, updates map[string]string) (createOutput, error) {
 	eventsPath := getEventsPath(dir)
 	lockPath := filepath.Join(dir, "lock")
-	return createTaskWithDir(dir, opts, lockPath, eventsPath, epicID, isEpic, title, body)
+	return createTaskWithDir(dir, opts, lockPath, eventsPath, epicID, isEpic, title, body, updates)
 }
 
-func createTaskWithDir(dir string, opts GlobalOptions, lockPath, eventsPath, epicID string, isEpic bool, title, body string) (createOutput, error) {
+func createTaskWithDir(dir string, opts GlobalOptions, lockPath, eventsPath, epicID string, isEpic bool, title, body string, updates map[string]string) (createOutput, error) {
 	var output createOutput
 	err := withLock(lockPath, syscall.LOCK_EX, func() error {
 		graph, err := loadGraph(dir)
@@ -450,7 +453,22 @@ func createTaskWithDir(dir string, opts GlobalOptions, lockPath, eventsPath, epi
 		if err != nil {
 			return err
 		}
-		if err := appendEvents(eventsPath, []Event{event}); err != nil {
+		events := []Event{event}
+		state := stateTodo
+		if len(updates) > 0 {
+			task := &Task{ID: id, EpicID: payload.EpicID, IsEpic: isEpic, State: stateTodo, Title: title, Body: body}
+			updateEvents, err := buildUpdateEvents(graph, filepath.Dir(dir), id, task, updates, opts.AgentID, now)
+			if err != nil {
+				return err
+			}
+			events = append(events, updateEvents...)
+			replayed, err := replayEvents(events)
+			if err != nil {
+				return err
+			}
+			state = replayed.Tasks[id].State
+		}
+		if err := appendEvents(eventsPath, events); err != nil {
 			return err
 		}
 		kind := "task"
@@ -462,7 +480,7 @@ func createTaskWithDir(dir string, opts GlobalOptions, lockPath, eventsPath, epi
 			ID:        id,
 			UUID:      uuid,
 			EpicID:    payload.EpicID,
-			State:     stateTodo,
+			State:     state,
 			Title:     title,
 			Body:      body,
 			CreatedAt: payload.CreatedAt,
